@@ -1,3 +1,318 @@
+import Cello.File
+import CelloGen.File
 import Driver.Common
-/- driver for engine `file` — stub, replaced when the engine is built -/
-def main (_args : List String) : IO Unit := IO.println "O not-implemented"
+/- driver for engine `file` (C20): interprets the same op files as harness/h_file.c on the model
+   (`Cello.File.step` over the reference stdio `refIO`, with the File_Close facts read from the source by the
+   translator) and prints the same `O` lines. -/
+open Cello.File
+
+namespace Driver.FileDrv
+
+def nObj : Nat := 8
+def nStack : Nat := 4
+def nFile : Nat := 6
+def maxIO : Nat := 262144
+def fullLimit : Nat := 1024
+
+def cfg : Cfg := ⟨CelloGen.File.closeGuarded, CelloGen.File.closeDropsAlways⟩
+
+structure Sys where
+  m : Multi Ref                          -- the model state: library, File objects, log of every stdio call
+  inWith : List Nat := []                -- subjects of the with-blocks being executed
+  depth : Nat := 0
+  nontrivial : Nat := 0
+
+def Sys.init : Sys := { m := ⟨Ref.init, [(0, none), (1, none), (2, none), (3, none)], []⟩ }
+
+def Sys.lib (s : Sys) : Ref := s.m.lib
+def Sys.objs (s : Sys) : List (Nat × Option Handle) := s.m.objs
+def Sys.obj (s : Sys) (o : Nat) : Option (Option Handle) := lookup o s.m.objs
+
+def Sys.stream (s : Sys) (o : Nat) : Option Stream :=
+  match s.obj o with
+  | some (some h) => lookup h s.lib.streams
+  | _ => none
+
+def stText (s : Sys) (o : Nat) : String :=
+  match s.obj o with
+  | none => "none"
+  | some none => "closed"
+  | some (some h) =>
+    match lookup h s.lib.streams with
+    | none => "STALE"
+    | some st => s!"h{h}:{st.pos}:{if st.eof then 1 else 0}"
+
+def excText {α : Type} : Out α → String
+  | .ok _ => "none"
+  | .raised e => e.name
+  | .ub => "ub"
+
+/-- run one operation of the multi-object model; `none` = not applicable -/
+def Sys.exec (s : Sys) (o : Nat) (mop : MOp) : Option (Sys × R Ref Val) :=
+  match s.m.stepR refIO cfg o mop with
+  | none => none
+  | some (r, keep) => some ({ s with m := s.m.apply o r keep }, r)
+
+def emit (s : Sys) (o : Nat) (op : String) (exc : String) (extra : String) (calls : List Call) : IO Unit :=
+  IO.println s!"O {op} exc={exc}{if extra.isEmpty then "" else " " ++ extra} st={stText s o} calls={showCalls calls} live={s.lib.streams.length}"
+
+def busy (s : Sys) (k : Nat) (except : Option Nat) : Bool :=
+  k < nFile && s.objs.any (fun (o, f) => some o ≠ except && match f with
+    | some h => (match lookup h s.lib.streams with | some st => st.file = k | none => false)
+    | none => false)
+
+def fileOk (k : Nat) : Bool := k < nFile || k = fileNoDir || k = fileFull
+
+def hexVal (c : Char) : Option Nat :=
+  if c.isDigit then some (c.toNat - '0'.toNat)
+  else if 'a' ≤ c && c ≤ 'f' then some (c.toNat - 'a'.toNat + 10)
+  else if 'A' ≤ c && c ≤ 'F' then some (c.toNat - 'A'.toNat + 10)
+  else none
+
+def parseHex (t : String) : Option (List Byte) :=
+  if t = "-" then some [] else
+  let rec go : List Char → List Byte → Option (List Byte)
+    | [], acc => some acc.reverse
+    | [_], _ => none
+    | a :: b :: rest, acc =>
+      match hexVal a, hexVal b with
+      | some x, some y => go rest (UInt8.ofNat (x * 16 + y) :: acc)
+      | _, _ => none
+  go t.toList []
+
+def isOpen (s : Sys) (o : Nat) : Bool := match s.obj o with | some (some _) => true | _ => false
+
+/-- a write-type transfer straight after a read that did not hit the end of the file, or a read-type one straight after
+    a write, is undefined in C: neither side executes it -/
+def writeAfterRead (s : Sys) (o : Nat) : Bool :=
+  match s.stream o with | some st => st.last = .rd && !st.eof | none => false
+def readAfterWrite (s : Sys) (o : Nat) : Bool :=
+  match s.stream o with | some st => st.last = .wr | none => false
+def onFull (s : Sys) (o : Nat) : Bool :=
+  match s.stream o with | some st => st.file = fileFull | none => false
+
+def doWrite (s : Sys) (o : Nat) (op : String) (data : List Byte) : IO Sys := do
+  if writeAfterRead s o then IO.println s!"O {op} unsup"; return s
+  match s.stream o with
+  | some st => if st.file = fileFull && st.pos + data.length > fullLimit then IO.println s!"O {op} unsup"; return s
+  | none => pure ()
+  match s.exec o (.op (.write data)) with
+  | none => IO.println "O bad-op"; return s
+  | some (s', r) =>
+    let ret := match r.out with | .ok (.nat n) => toString n | _ => "-1"
+    emit s' o op (excText r.out) s!"ret={ret}" r.calls
+    return s'
+
+def simple (s : Sys) (o : Nat) (name : String) (op : MOp) (showRet : Option (Val → String)) : IO Sys := do
+  match s.exec o op with
+  | none => IO.println "O bad-op"; return s
+  | some (s', r) =>
+    let extra := match showRet with
+      | none => ""
+      | some g => "ret=" ++ (match r.out with | .ok v => g v | _ => "-1")
+    emit s' o name (excText r.out) extra r.calls
+    return s'
+
+partial def runRange (lines : Array String) (lo hi : Nat) (s : Sys) : IO Sys := do
+  let mut i := lo
+  let mut s := s
+  while i < hi do
+    let (s', next) ← execOp lines i hi s
+    s := s'; i := next
+  return s
+where
+  execOp (lines : Array String) (i hi : Nat) (s : Sys) : IO (Sys × Nat) := do
+    let bad : IO (Sys × Nat) := do IO.println "O bad-op"; return (s, i + 1)
+    let line := lines[i]!
+    if line.length ≥ 2048 then return ← bad
+    let toks := Driver.words line
+    match toks with
+    | [] => bad
+    | op :: args =>
+    if op = "dump" || op = "rm" then
+      match args with
+      | [ks] =>
+        match ks.toNat? with
+        | some k =>
+          if k ≥ nFile then return ← bad
+          if busy s k none then IO.println s!"O {op} {k} busy"; return (s, i + 1)
+          if op = "rm" then
+            let ex := (lookup k s.lib.files).isSome
+            IO.println s!"O rm {k} ok={if ex then 1 else 0}"
+            return ({ s with m := { s.m with lib := { s.lib with files := erase k s.lib.files } } }, i + 1)
+          else
+            match lookup k s.lib.files with
+            | none => IO.println s!"O dump {k} absent"
+            | some c => IO.println s!"O dump {k} len={c.length} h={(fnv c).toNat}"
+            return (s, i + 1)
+        | none => bad
+      | _ => bad
+    else
+    match args with
+    | [] => bad
+    | os :: rest =>
+    match os.toNat? with
+    | none => bad
+    | some o =>
+    if o ≥ nObj then return ← bad
+    if op = "new" then
+      if o < nStack || (s.obj o).isSome then return ← bad
+      match rest with
+      | [] => return (← simple s o "new" (.new none) none, i + 1)
+      | [ks, ms] =>
+        match ks.toNat?, parseMode ms with
+        | some k, some m =>
+          if !fileOk k then return ← bad
+          if busy s k (some o) then IO.println "O new busy"; return (s, i + 1)
+          if k = fileFull && !(m = .w || m = .a) then IO.println "O new unsup"; return (s, i + 1)
+          return (← simple s o "new" (.new (some (k, m))) none, i + 1)
+        | _, _ => bad
+      | _ => bad
+    else
+    if (s.obj o).isNone then return ← bad
+    let nargs := rest.length
+    if op = "del" then
+      if o < nStack || nargs ≠ 0 || s.inWith.contains o then return ← bad
+      return (← simple s o "del" .del none, i + 1)
+    else if op = "open" then
+      match rest with
+      | [ks, ms] =>
+        match ks.toNat?, parseMode ms with
+        | some k, some m =>
+          if !fileOk k then return ← bad
+          if busy s k (some o) then IO.println "O open busy"; return (s, i + 1)
+          if k = fileFull && !(m = .w || m = .a) then IO.println "O open unsup"; return (s, i + 1)
+          let s' ← simple s o "open" (.op (.open k m)) none
+          return (s', i + 1)
+        | _, _ => bad
+      | _ => bad
+    else if op = "close" then
+      if nargs ≠ 0 then return ← bad
+      return (← simple s o "close" (.op .close) none, i + 1)
+    else if op = "stop" then
+      if nargs ≠ 0 then return ← bad
+      return (← simple s o "stop" (.op .stop) none, i + 1)
+    else if op = "with" || op = "withx" then
+      match rest with
+      | [ns] =>
+        match ns.toNat? with
+        | none => bad
+        | some n =>
+          if s.depth > 16 then return ← bad
+          let leave := op = "withx"
+          let stop := min (i + 1 + n) hi
+          let s0 ← simple s o "with-enter" (.op .withEnter) none
+          let s1 ← runRange lines (i + 1) stop { s0 with inWith := o :: s0.inWith, depth := s0.depth + 1 }
+          let s1 := { s1 with inWith := s1.inWith.drop 1, depth := s1.depth - 1 }
+          if leave then
+            emit s1 o "with-abort" "ValueError" "" []
+            return (s1, stop)
+          else
+            return (← simple s1 o "with-exit" (.op .withExit) none, stop)
+      | _ => bad
+    else if op = "seek" then
+      match rest with
+      | [offs, whs] =>
+        match offs.toInt?, parseWhence whs with
+        | some off, some wh =>
+          if onFull s o then IO.println "O seek unsup"; return (s, i + 1)
+          return (← simple s o "seek" (.op (.seek off wh)) none, i + 1)
+        | _, _ => bad
+      | _ => bad
+    else if op = "tell" then
+      if nargs ≠ 0 then return ← bad
+      return (← simple s o "tell" (.op .tell) (some (fun v => match v with | .nat n => toString n | _ => "?")), i + 1)
+    else if op = "flush" then
+      if nargs ≠ 0 then return ← bad
+      return (← simple s o "flush" (.op .flush) none, i + 1)
+    else if op = "eof" then
+      if nargs ≠ 0 then return ← bad
+      return (← simple s o "eof" (.op .eof) (some (fun v => match v with | .bool b => (if b then "1" else "0") | _ => "?")), i + 1)
+    else if op = "read" then
+      match rest with
+      | [ns] =>
+        match ns.toNat? with
+        | none => bad
+        | some n =>
+          if n > maxIO then return ← bad
+          if readAfterWrite s o || onFull s o then IO.println "O read unsup"; return (s, i + 1)
+          match s.exec o (.op (.read n)) with
+          | none => bad
+          | some (s', r) =>
+            let (ret, data) := match r.out with | .ok (.data num d) => (toString num, d) | _ => ("-1", [])
+            emit s' o "read" (excText r.out) s!"ret={ret} got={data.length} h={(fnv data).toNat}" r.calls
+            return ({ s' with nontrivial := s'.nontrivial + (if data.length > 0 then 1 else 0) }, i + 1)
+      | _ => bad
+    else if op = "write" then
+      match rest with
+      | [ls, ss] =>
+        match ls.toNat?, ss.toNat? with
+        | some len, some seed =>
+          if len > maxIO then return ← bad
+          return (← doWrite s o "write" (genBytes len (UInt64.ofNat seed)), i + 1)
+        | _, _ => bad
+      | _ => bad
+    else if op = "writehex" then
+      match rest with
+      | [hs] =>
+        match parseHex hs with
+        | some d => return (← doWrite s o "writehex" d, i + 1)
+        | none => bad
+      | _ => bad
+    else if op = "print" then
+      match rest with
+      | [vs] =>
+        match vs.toInt? with
+        | none => bad
+        | some v =>
+          if writeAfterRead s o || onFull s o then IO.println "O print unsup"; return (s, i + 1)
+          return (← simple s o "print" (.op (.print (printIntFrags v))) (some (fun x => match x with | .int n => toString n | _ => "?")), i + 1)
+      | _ => bad
+    else if op = "scan" then
+      if nargs ≠ 0 then return ← bad
+      let unsup : Bool := match s.stream o with
+        | some st => st.last = .wr || st.file = fileFull ||
+            (st.mode.canRead && !scanSupported ((s.lib.content st.file).drop st.pos))
+        | none => false
+      if unsup then IO.println "O scan unsup"; return (s, i + 1)
+      match s.exec o (.op .scanInt) with
+      | none => bad
+      | some (s', r) =>
+        let v := match r.out with | .ok (.int n) => toString n | _ => "-777"
+        emit s' o "scan" (excText r.out) s!"val={v}" r.calls
+        return (s', i + 1)
+    else bad
+
+/-- end of the op file: delete the heap objects, close the stack objects -/
+def finish (s : Sys) : Sys := Id.run do
+  let mut s := s
+  for k in [0:nObj] do
+    let o := nObj - 1 - k
+    match s.obj o with
+    | none => pure ()
+    | some f =>
+      let mop : Option MOp := if o ≥ nStack then some .del else if f.isSome then some (.op .close) else none
+      match mop with
+      | none => pure ()
+      | some mop => match s.exec o mop with
+        | some (s', _) => s := s'
+        | none => pure ()
+  return s
+
+end Driver.FileDrv
+
+open Driver.FileDrv in
+def main (args : List String) : IO Unit := do
+  let raw ← Driver.inputLines args
+  let lines := raw.filter (fun l => !Driver.isSkippable l)
+  let s ← runRange lines 0 lines.size Sys.init
+  let s := finish s
+  let calls := s.m.log.map (fun p => p.2)
+  let nOpen := (calls.filter isOpenOk).length
+  let nFail := (calls.filter (fun c => match c with | .fopen _ _ none => true | _ => false)).length
+  let nClose := (calls.filter isClose).length
+  IO.println s!"O end fopen={nOpen} fail={nFail} fclose={nClose} live={s.lib.streams.length}"
+  -- the model's own verdict on its log (used when a proof no longer checks): every object's calls well bracketed
+  let okTrack := (List.range nObj).all (fun o => (track none (proj o s.m.log)).isSome)
+  IO.println s!"R bracketed={okTrack}"
+  IO.println s!"S reads={s.nontrivial}"
